@@ -12,8 +12,21 @@ PROP = dict(
             # the placeholder scanner
             dict(module="Replacer", cfg=dict(quick="Replacer_quick.cfg", thorough="Replacer_thorough.cfg"), emit=True,
                  workers=8, coverage=True, timeout=dict(quick=300, thorough=1200)),
+        ] + [
+            # extension: where the entries end up - shared log files, rotation, reloads (notes/LogSink.md)
+            dict(module="LogSink", cfg=dict(quick="LogSink_quick.cfg", thorough="LogSink_thorough.cfg"), workers=8, timeout=300),
+            dict(module="LogSink", cfg=dict(thorough="LogSinkSite_thorough.cfg"), workers=8, timeout=300),
+            dict(module="LogSink", cfg=dict(thorough="LogSinkRaw_thorough.cfg"), workers=8, timeout=300),
+            dict(module="LogSink", cfg=dict(thorough="LogSinkGrace_thorough.cfg"), workers=8, timeout=300, coverage=True,
+                 coverage_ignore=["WriteRest", "Reap", "Next"]),  # the as-found / hypothetical deviations are switched off
+            dict(module="LogSink", cfg=dict(thorough="LogSinkLive_thorough.cfg"), workers=4, timeout=300),
+            dict(module="LogRoller", cfg=dict(thorough="LogRoller_thorough.cfg"), emit=True, workers=8, timeout=300),
+            dict(module="LogSinkHist", cfg="LogSinkHist.cfg", emit=True, workers=1,
+                 simulate=dict(quick=dict(num=6, depth=120), thorough=dict(num=60, depth=120)), timeout=300),
         ],
-        go=[dict(pkg="c20", test="TestC20", timeout=dict(quick=600, thorough=3000))],
+        go=[dict(pkg="c20", test="TestC20", timeout=dict(quick=600, thorough=3000)),
+            dict(pkg="cx20logsink", test="TestCx20LogSink", timeout=dict(quick=300, thorough=900))],
+        traces=[dict(name="logsink", module="LogSinkTrace", cfg="LogSinkTrace.cfg", timeout=600)],
         exhaustive=dict(quick=False, thorough=True),
         technique="TLA+ specs Middleware.tla (recorder/log lines in the handler contract), LogScope.tla (scopes, except, several logs) and Replacer.tla (placeholder scanner) model-checked by TLC; terminal states replayed against real casket sites writing real log files",
         level_text="TLC checks OneLinePerLog and StatusSizeMatchClient on every behaviour of Middleware.tla, OneLinePerLog on every set of <=3 log directives (4 scopes x except) x 8 request paths of LogScope.tla, and SinglePass (lock-step expansion with opaque marks), MatchesGrammar (UnknownIsEmptyMarker, EscapedStayLiteral) and Total on every format of <=5 symbols x 8 adversarial request values of Replacer.tla. The terminal states are replayed against real sites: access-log files are parsed and compared with the status and body bytes the client received (also from 16 concurrent clients), every format of the model is used as a `header` value and (a seeded subset) as a `log` format with requests carrying placeholder syntax in header, query and cookie.",
